@@ -350,7 +350,9 @@ class Interp(ObjectMixin, LoopMixin):
             has, _ = self.ops.dict_get(container, x)
             return has
         if isinstance(container, SOpt):
-            if self.st.branch(container.isnone):
+            if self.pure:
+                return z3.And(z3.Not(self.ops.is_none(container)), self.contains(container.inner, x))
+            if self.st.branch(self.ops.is_none(container)):
                 self.raise_builtin("TypeError", "argument of type 'NoneType' is not iterable")
             return self.contains(container.inner, x)
         if isinstance(container, (SVal, SStr)):
